@@ -726,6 +726,11 @@ def derivative_model_part(ctx: Ctx, drv):
                 impl = ("ok", np.asarray(yn, dtype=float).reshape(k, dim), np.asarray(yd, dtype=float).reshape(k, dim))
             except ValueError as e:
                 impl = ("err", classify_error(e))
+            # ---- oracle: bounds_error=True refuses extrapolation, also for the abscissae x_new +- dx of the difference quotient
+            lo_, hi_ = float(np.min(xn)) - abs(dx), float(np.max(xn)) + abs(dx)
+            if be and impl[0] == "ok" and (lo_ < float(x[0]) - 1e-9 * span or hi_ > float(x[-1]) + 1e-9 * span):
+                V(ctx, "interp:derivative:extrapolates-despite-bounds_error", f"interpolate_with_derivative(lagrange, bounds_error=True) evaluates the "
+                  f"interpolant on [{lo_!r}, {hi_!r}] outside the sample range [{float(x[0])!r}, {float(x[-1])!r}] without raising", case)
             rows = np.asarray(yi, dtype=float).reshape(n, dim)
             s_ = float(np.std(xi))
             m = drv.ask1(f"c20 lagderiv {w} {int(be)} {int(srt)} {rs(frac(s_))} {dim} {rl(frac(v) for v in xi)} "
@@ -856,24 +861,117 @@ def scipy_part(ctx: Ctx, drv):
                         for cdx in range(dim):
                             if abs(frac(r[a, cdx]) - mv[a][cdx]) > frac(1e-14 * amp * ymax):
                                 ctx.disagree("linear value", {**case, "at": [a, cdx]}, float(mv[a][cdx]), float(r[a, cdx]))
-                if kind == "barycentric_interpolator" and n <= 10:
-                    # the full-degree interpolating polynomial is the Lagrange interpolant with window = n
-                    s = float(np.std(x))
-                    line = (f"c20 lagrange {n} 1 1 {rs(frac(s))} {dim} {rl(frac(v) for v in x)} "
-                            f"{rrows([frac(v) for v in row] for row in rows)} {rl(frac(v) for v in xn)}")
-                    m = drv.ask1(line) if n >= 3 else "skip"
-                    if m.startswith("ok "):
+                if kind == "barycentric_interpolator":
+                    # the specification `barycentric` (the interpolating polynomial through all samples, in any order)
+                    perm = np.array(rng.sample(range(n), n))
+                    line = (f"c20 barycentric {dim} {rl(frac(v) for v in x[perm])} "
+                            f"{rrows([frac(v) for v in row] for row in rows[perm])} {rl(frac(v) for v in xn)}")
+                    m = drv.ask1(line)
+                    if not m.startswith("ok "):
+                        ctx.disagree("barycentric_interpolator error branch", case, m, "value")
+                    else:
                         mv = prows(m[3:])
-                        r = np.asarray(call_interp(kind, x, y, xn), dtype=float).reshape(len(xn), dim)
-                        W = np.asarray(call_interp(kind, x, np.eye(n), xn), dtype=float)
-                        cond = np.abs(W) @ np.abs(rows)
+                        r = np.asarray(call_interp(kind, x[perm], y[perm], xn), dtype=float).reshape(len(xn), dim)
+                        W = np.asarray(call_interp(kind, x[perm], np.eye(n), xn), dtype=float)
+                        lam = np.abs(W).sum(axis=1)
+                        cond = np.abs(W) @ np.abs(rows[perm])
                         amp = 1.0 + float(np.max(np.abs(x - x.mean())) / np.min(np.diff(x)))
                         for a in range(len(xn)):
+                            if lam[a] > 1e3:      # as in the oracle: SciPy's weights lose more than Lambda*eps there
+                                ctx.count("barycentric-vs-model:ill-conditioned-abscissa-skipped")
+                                continue
                             for cdx in range(dim):
                                 if abs(frac(r[a, cdx]) - mv[a][cdx]) > frac(1e-13 * n * amp * float(cond[a, cdx]) + 1e-300):
-                                    ctx.disagree("barycentric_interpolator vs full-window Lagrange model", {**case, "at": [a, cdx]},
+                                    ctx.disagree("barycentric_interpolator vs the interpolating polynomial (model)", {**case, "at": [a, cdx]},
                                                  float(mv[a][cdx]), float(r[a, cdx]))
-                        ctx.count("barycentric-vs-lagrange-model")
+                        ctx.count("barycentric-vs-model")
+                        ctx.count(f"barycentric-vs-model:n={'3-6' if n <= 6 else '7-10' if n <= 10 else '11-14'}")
+
+
+# =============================================================================================
+# nputil: norm, unit_vector, take, col, row
+
+
+def nputil_part(ctx: Ctx, drv):
+    """norm / unit_vector / take / col / row for 1- and 2-dimensional input of every numeric dtype (take/col/row also
+    lists): correspondence with normSq / unitVector / takeLast, oracle |u| = 1, |v| u = v, 1-d = row of 2-d, shapes"""
+    from midgard.math import nputil
+
+    rng = ctx.rng
+    for ci in range(ctx.budget(150, 3000)):
+        with guard(ctx, "nputil"):
+            d = rng.choice([1, 2, 3, 3, 3, 4, 6])
+            nrow = rng.randint(1, 6)
+            c = rng.random()
+            if c < 0.4:
+                rows = np.array([[float(rng.randint(-1000, 1000)) for _ in range(d)] for _ in range(nrow)])
+            elif c < 0.7:
+                rows = np.array([[rng.uniform(-1, 1) * 10 ** rng.uniform(-6, 8) for _ in range(d)] for _ in range(nrow)])
+            else:     # one dominant component, or a component that is exactly zero
+                rows = np.array([[rng.uniform(-1, 1) * 10 ** rng.choice([-8, 0, 7]) for _ in range(d)] for _ in range(nrow)])
+                rows[rng.randrange(nrow), rng.randrange(d)] = 0.0
+            for r_ in rows:
+                if not np.any(r_):
+                    r_[0] = 1.0
+            dt = T.pick_dtype(rng, rows, T.INT_DT + ["float32", "float64"], keep64=0.3)
+            one_d = rng.random() < 0.4
+            data = rows[0] if one_d else rows
+            typed = T.cast(data, dt)
+            case = {"part": "nputil", "dtype": dt, "one_d": one_d, "d": d, "rows": [[fl(v) for v in r_] for r_ in np.atleast_2d(data)]}
+            ctx.case(case)
+            ctx.count(f"nputil:{'1-d' if one_d else '2-d'}:{T.dtclass(dt)}")
+            low = T.eps_of(dt)
+            tol = 8 * max(low, EPS) * math.sqrt(d)
+            try:
+                nv = np.asarray(nputil.norm(typed))
+                uv = np.asarray(nputil.unit_vector(typed))
+                i = rng.randrange(d)
+                as_list = rng.random() < 0.3
+                tk = np.asarray(nputil.take(typed.tolist() if as_list else typed, i))
+                tkneg = np.asarray(nputil.take(typed, i - d))
+                co, ro = np.asarray(nputil.col(typed.tolist() if as_list else typed)), np.asarray(nputil.row(typed))
+            except Exception as e:  # noqa
+                V(ctx, f"nputil:raises:{type(e).__name__}", f"nputil on a {data.shape} {dt} array raised {type(e).__name__}: {str(e)[:100]}", case)
+                continue
+            R = np.atleast_2d(data)
+            nv2, uv2 = np.atleast_1d(nv).astype(float), np.atleast_2d(uv).astype(float)
+            # ---- oracle (exact arithmetic on the values handed in)
+            bad = None
+            if nv.shape != data.shape[:-1] or uv.shape != data.shape or nv.dtype.kind != "f" or uv.dtype.kind != "f":
+                bad = f"shapes/dtypes: norm {nv.shape} {nv.dtype}, unit_vector {uv.shape} {uv.dtype} for input {data.shape}"
+            else:
+                for k_, r_ in enumerate(R):
+                    n2 = sum(frac(v) ** 2 for v in r_)
+                    if abs(frac(nv2[k_]) ** 2 - n2) > frac(2 * tol) * n2:
+                        bad = f"norm(row {k_})^2 = {nv2[k_] ** 2!r} but the squares sum to {float(n2)!r}"
+                    u2 = sum(frac(v) ** 2 for v in uv2[k_])
+                    if abs(u2 - 1) > frac(2 * tol):
+                        bad = f"|unit_vector(row {k_})|^2 = {float(u2)!r}"
+                    if not np.all(np.abs(uv2[k_] * nv2[k_] - r_) <= tol * nv2[k_]):
+                        bad = f"norm * unit_vector differs from row {k_} by {float(np.max(np.abs(uv2[k_] * nv2[k_] - r_))):.3e}"
+            if bad:
+                V(ctx, f"nputil:norm/unit_vector:{'1-d' if one_d else '2-d'}", f"{bad} (dtype {dt})", case)
+            want_take = data[..., i]
+            if tk.shape != want_take.shape or not np.array_equal(tk.astype(float), want_take) or not np.array_equal(tkneg.astype(float), want_take) \
+                    or (not as_list and tk.dtype != typed.dtype):
+                V(ctx, "nputil:take", f"take(v, {i}) / take(v, {i - d}) of a {data.shape} {dt} {'list' if as_list else 'array'} = {tk.tolist()} / {tkneg.tolist()}, "
+                  f"component {i} along the last axis is {want_take.tolist()}", {**case, "i": i})
+            if co.shape != data.shape + (1,) or ro.shape != data.shape[:-1] + (1, d) or not np.array_equal(co[..., 0].astype(float), data) \
+                    or not np.array_equal(ro[..., 0, :].astype(float), data):
+                V(ctx, "nputil:col/row", f"col/row of a {data.shape} array have shapes {co.shape}/{ro.shape} or other content", case)
+            # ---- correspondence
+            rr = rrows([frac(v) for v in r_] for r_ in R)
+            m1 = prl(drv.ask1(f"c20 normsq {rr}"))
+            m2 = prows(drv.ask1(f"c20 unitvec {rl(frac(v) for v in nv2)} {rr}"))
+            m3 = prl(drv.ask1(f"c20 take {i} {rr}"))
+            for k_ in range(len(R)):
+                if abs(frac(nv2[k_]) ** 2 - m1[k_]) > frac(2 * tol) * m1[k_]:
+                    ctx.disagree("nputil.norm", case, float(m1[k_]), float(nv2[k_]) ** 2)
+                for j_ in range(d):
+                    if abs(frac(uv2[k_][j_]) - m2[k_][j_]) > frac(tol):
+                        ctx.disagree("nputil.unit_vector", {**case, "at": [k_, j_]}, float(m2[k_][j_]), float(uv2[k_][j_]))
+            if [frac(v) for v in np.atleast_1d(tk).astype(float)] != m3:
+                ctx.disagree("nputil.take", {**case, "i": i}, [float(v) for v in m3], tk.tolist())
 
 
 # =============================================================================================
@@ -1120,6 +1218,55 @@ def plate_part(ctx: Ctx, drv, info):
                                 {"model": "nnr_morvel56", "plate": pl, "doc": [str(lat), str(lon), str(rate)]})
 
 
+def pole_forms_part(ctx: Ctx, drv, info):
+    """PlateMotion.to_cartesian / to_spherical on generated poles: to_cartesian vs the model toCartesianQ (cos/sin of the
+    angles as the code obtains them), the rate recovered by to_spherical vs omegaSq; oracle: both round trips on the
+    ranges of theorems spherical_roundtrip_real / cartesian_roundtrip_real"""
+    from midgard.math.plate_motion import PlateMotion
+    from midgard.math.unit import Unit
+
+    rng = ctx.rng
+    mname, plate = info["poles"][0][:2]
+    pm = PlateMotion(plate=plate, model=mname)
+    d2r = float(Unit.degree2radian)
+    for ci in range(ctx.budget(150, 3000)):
+        with guard(ctx, "pole-forms"):
+            c = rng.random()
+            lat = rng.uniform(-89.9, 89.9) if c < 0.8 else float(rng.randint(-89, 89))
+            lon = rng.uniform(-180, 180) if c < 0.8 else float(rng.choice([180, 0, 90, -90, rng.randint(-179, 180)]))
+            w = 10 ** rng.uniform(-3, 1) if c < 0.9 else float(rng.randint(1, 3))
+            case = {"part": "pole-forms", "lat": fl(lat), "lon": fl(lon), "rate": fl(w)}
+            ctx.case(case)
+            ctx.count("pole-forms:" + ("random" if c < 0.8 else "whole degrees"))
+            sph = np.array([lat, lon, w])
+            car = np.asarray(pm.to_cartesian(sph), dtype=float)
+            back = np.asarray(pm.to_spherical(car), dtype=float)
+            cl, sl, co, so = (frac(float(f(a * d2r))) for a, f in ((lat, np.cos), (lat, np.sin), (lon, np.cos), (lon, np.sin)))
+            m = [Fraction(t) for t in drv.ask1(f"c20 tocart {rs(cl)} {rs(sl)} {rs(co)} {rs(so)} {rs(frac(w))}").split()]
+            scale = 3.6 * w
+            for i in range(3):
+                if abs(frac(car[i]) - m[i]) > frac(1e-13 * scale):
+                    ctx.disagree("PlateMotion.to_cartesian", {**case, "i": i}, float(m[i]), float(car[i]))
+            if abs(frac(back[2]) ** 2 - m[3]) > frac(1e-12) * m[3]:
+                ctx.disagree("PlateMotion.to_spherical rate", case, float(m[3]), float(back[2]) ** 2)
+            # ---- oracle: spherical -> cartesian -> spherical (|lat| < 90, -180 < lon <= 180, rate > 0)
+            dlon = abs(back[1] - lon)
+            dlon = min(dlon, abs(dlon - 360))
+            if abs(back[0] - lat) > 1e-9 or dlon > 1e-9 / max(math.cos(math.radians(lat)), 1e-3) or abs(back[2] - w) > 1e-12 * w:
+                V(ctx, "plate:spherical-roundtrip", f"to_spherical(to_cartesian({[lat, lon, w]})) = {back.tolist()}", case)
+            if not (-180 - 1e-9 <= back[1] <= 180 + 1e-9 and -90 <= back[0] <= 90):
+                V(ctx, "plate:spherical-ranges", f"to_spherical returns latitude/longitude {back[0]!r}/{back[1]!r}", case)
+            # ---- oracle: cartesian -> spherical -> cartesian, every vector (also on the axis)
+            v = np.array([rng.uniform(-1, 1), rng.uniform(-1, 1), rng.uniform(-1, 1)]) * 10 ** rng.uniform(-2, 1)
+            if rng.random() < 0.15:
+                v[0] = v[1] = 0.0
+            elif rng.random() < 0.15:
+                v[rng.randrange(3)] = 0.0
+            v2 = np.asarray(pm.to_cartesian(pm.to_spherical(v)), dtype=float)
+            if not np.all(np.abs(v2 - v) <= 1e-12 * np.linalg.norm(v)):
+                V(ctx, "plate:cartesian-roundtrip", f"to_cartesian(to_spherical({v.tolist()})) = {v2.tolist()}", {**case, "v": [fl(u) for u in v]})
+
+
 # =============================================================================================
 # linear regression
 
@@ -1228,6 +1375,7 @@ def run(ctx: Ctx):
     ctx.proof = common.prove("C20")
     if ctx.thorough and ctx.proof.ok:
         mods = ["Midgard.Props.C20", "Midgard.Proofs.C20Lagrange", "Midgard.Proofs.C20Dop", "Midgard.Proofs.C20Algebra",
+                "Midgard.Proofs.C20Deriv", "Midgard.Proofs.C20Bary", "Midgard.Proofs.C20Nputil", "Midgard.Proofs.C20Spherical",
                 "Midgard.Model.Numeric", "Midgard.Spec.UnitsSI", "Midgard.Generated.C20Tables"]
         import subprocess
         with common.lake_lock():
@@ -1268,8 +1416,10 @@ def run(ctx: Ctx):
     derivative_model_part(ctx, drv)
     import sys
     T.types_part(ctx, sys.modules[__name__], info)
+    nputil_part(ctx, drv)
     dops_part(ctx, drv)
     plate_part(ctx, drv, info)
+    pole_forms_part(ctx, drv, info)
     linreg_part(ctx, drv)
     ctx.traces = ctx.evaluations - ctx.hist.get("unit-triples", 0)
 
@@ -1349,6 +1499,35 @@ def replay(payload):
                     bad = bad or float(getattr(Unit, f"{a}2{b}")) != v
                 except Exception:  # noqa
                     pass
+        elif part == "pole-forms":
+            from midgard.math.plate_motion import PlateMotion
+            from midgard.collections import plate_motion_models as pmm
+            mname = pmm.models()[0]
+            pm = PlateMotion(plate=pmm.get(mname).plates[0], model=mname)
+            sph = np.array([_hx(c["lat"]), _hx(c["lon"]), _hx(c["rate"])])
+            car = np.asarray(pm.to_cartesian(sph), dtype=float); back = np.asarray(pm.to_spherical(car), dtype=float)
+            print("to_cartesian", car.tolist(), "-> to_spherical", back.tolist())
+            dlon = min(abs(back[1] - sph[1]), abs(abs(back[1] - sph[1]) - 360))
+            bad = abs(back[0] - sph[0]) > 1e-9 or dlon > 1e-9 / max(math.cos(math.radians(sph[0])), 1e-3) or abs(back[2] - sph[2]) > 1e-12 * sph[2]
+            if "v" in c:
+                v = np.array([_hx(u) for u in c["v"]]); v2 = np.asarray(pm.to_cartesian(pm.to_spherical(v)), dtype=float)
+                print("cartesian", v.tolist(), "->", v2.tolist())
+                bad = bad or not np.all(np.abs(v2 - v) <= 1e-12 * np.linalg.norm(v))
+        elif part == "nputil":
+            from midgard.math import nputil
+            R = np.array([[_hx(v) for v in r_] for r_ in c["rows"]])
+            data = T.cast(R[0] if c["one_d"] else R, c["dtype"])
+            nv, uv = np.atleast_1d(np.asarray(nputil.norm(data), dtype=float)), np.atleast_2d(np.asarray(nputil.unit_vector(data), dtype=float))
+            print("norm", nv, "unit_vector", uv.tolist())
+            tol = 16 * max(T.eps_of(c["dtype"]), EPS) * math.sqrt(R.shape[1])
+            bad = nv.shape != (len(np.atleast_2d(data)),) or uv.shape != np.atleast_2d(data).shape
+            for k_, r_ in enumerate(np.atleast_2d(R[0] if c["one_d"] else R)):
+                bad = bad or abs(float(np.sum(uv[k_] ** 2)) - 1) > tol or not np.all(np.abs(uv[k_] * nv[k_] - r_) <= tol * nv[k_]) \
+                    or abs(frac(nv[k_]) ** 2 - sum(frac(v) ** 2 for v in r_)) > frac(tol) * sum(frac(v) ** 2 for v in r_)
+            if "i" in c:
+                tk = np.asarray(nputil.take(data, c["i"]), dtype=float)
+                print("take", tk.tolist())
+                bad = bad or not np.array_equal(tk, (R[0] if c["one_d"] else R)[..., c["i"]])
         elif part == "derivative-lagrange":
             from midgard.math import interpolation as ip
             x = np.array([_hx(v) for v in c["x"]]); xn = np.array([_hx(v) for v in c["xn"]]); tail = tuple(c.get("tail", []))
